@@ -1,7 +1,11 @@
 (* C15, part 1: reading a key file never panics.  Every library call of the read path
    (Keystore/Model.v: call_scrypt, call_pbkdf2, call_ctr, the two slices of the derived key, the nil
-   pointer of readXWalletFile) is shown to be reached only inside its precondition.  No law about the
-   primitives is needed: the statements hold for every [prims] value. *)
+   pointer of readXWalletFile) is shown to be reached only inside its precondition -- with ONE exception
+   that the guards of the code do not exclude: the work area scrypt.Key allocates after its parameter
+   test (make([]uint32, 32*N*r), panics in runtime.makeslice beyond 2^48 bytes).  The totality theorems
+   therefore carry the decidable guard [cost_capped] (Keystore/ReadTypes.v), and [scrypt_decrypt_panic_iff] /
+   [read_panic_beyond_cap] say that this is the only way to panic.  No law about the primitives is
+   needed: the statements hold for every [prims] value. *)
 From Coq Require Import String.
 From Coq Require Import List NArith ZArith Lia Bool Arith.
 From Coq Require Import Init.Byte.
@@ -181,14 +185,38 @@ Proof.
   replace (0 <? sp_p kp)%Z with true by (symmetry; apply Z.ltb_lt; lia). reflexivity.
 Qed.
 
-Lemma scrypt_decrypt_np P c kp pw : scrypt_decrypt P c kp pw <> Panic.
+(* ... but nothing bounds the work area scrypt.Key allocates: the call panics exactly beyond the cap *)
+Lemma scrypt_decrypt_np P c kp pw :
+  scrypt_alloc_ok (sp_n kp) (sp_r kp) = true -> scrypt_decrypt P c kp pw <> Panic.
 Proof.
-  unfold scrypt_decrypt.
+  intros Ha. unfold scrypt_decrypt.
   destruct (sp_dklen kp =? derivedKeyLen)%Z eqn:E1; simpl; [|discriminate].
   destruct ((sp_r kp <=? 0)%Z || (sp_p kp <=? 0)%Z) eqn:E2; [discriminate|].
   unfold call_scrypt. rewrite (scrypt_guards_in_dom kp E1 E2). simpl.
   destruct (scrypt_params_ok (sp_n kp) (sp_r kp) (sp_p kp)); simpl; [|discriminate].
-  apply decryptCommon_np.
+  rewrite Ha. simpl. apply decryptCommon_np.
+Qed.
+
+Lemma scrypt_decrypt_panic_iff P c kp pw :
+  scrypt_decrypt P c kp pw = Panic <->
+  (sp_dklen kp = 32%Z /\ scrypt_pre (sp_n kp) (sp_r kp) (sp_p kp) 32 = true /\
+   scrypt_alloc_ok (sp_n kp) (sp_r kp) = false).
+Proof.
+  unfold scrypt_decrypt.
+  destruct (sp_dklen kp =? derivedKeyLen)%Z eqn:E1; simpl.
+  2:{ split; [discriminate|]. intros (H & _). unfold derivedKeyLen in E1. apply Z.eqb_neq in E1. contradiction. }
+  destruct ((sp_r kp <=? 0)%Z || (sp_p kp <=? 0)%Z) eqn:E2.
+  { split; [discriminate|]. intros (_ & H & _). exfalso.
+    unfold scrypt_pre, scrypt_dom in H. apply andb_prop in H as [H _]. apply andb_prop in H as [H _].
+    apply andb_prop in H as [A B]. apply Z.ltb_lt in A, B. apply orb_true_iff in E2 as [E2|E2]; apply Z.leb_le in E2; lia. }
+  pose proof (scrypt_guards_in_dom kp E1 E2) as Hd.
+  apply Z.eqb_eq in E1. unfold derivedKeyLen in E1.
+  unfold call_scrypt. rewrite Hd. simpl. unfold scrypt_pre. rewrite <- E1 at 2. rewrite Hd.
+  destruct (scrypt_params_ok (sp_n kp) (sp_r kp) (sp_p kp)); simpl.
+  2:{ split; [discriminate|]. intros (_ & H & _). discriminate. }
+  destruct (scrypt_alloc_ok (sp_n kp) (sp_r kp)); simpl.
+  - split; [intros H; exfalso; revert H; apply decryptCommon_np|]. intros (_ & _ & H). discriminate.
+  - split; auto.
 Qed.
 
 (* pbkdf2 decrypt: prf, dklen = 32 and c > 0 are tested before pbkdf2.Key *)
@@ -211,16 +239,21 @@ Proof.
 Qed.
 
 (* readScryptWalletFile / readPbkdf2WalletFile panic only on a top-level null (nil pointer) *)
-Lemma readScrypt_np P t pw md : t <> JNull -> readScryptWalletFile P t pw md <> Panic.
+Lemma readScrypt_np P t pw md :
+  t <> JNull ->
+  match decode_scrypt P t with Ok (_, (_, sp)) => scrypt_alloc_ok (sp_n sp) (sp_r sp) | _ => true end = true ->
+  readScryptWalletFile P t pw md <> Panic.
 Proof.
-  intros Ht. unfold readScryptWalletFile.
+  intros Ht Hc. unfold readScryptWalletFile.
   assert (H : (do (cf, ck) <- unmarshal_wallet P (step_crypto_with step_scrypt_params) (zero_cc, zero_sp) t;
                do key <- scrypt_decrypt P (fst ck) (snd ck) pw;
                Ok {| w_core := cf; w_metadata := match md with Some m => m | None => [] end;
                      w_crypto := fst ck; w_kdfparams := KScrypt (snd ck); w_private := key |}) <> Panic).
-  { apply bind_np.
-    - apply unmarshal_wallet_np. intros. apply step_crypto_with_np. apply step_scrypt_params_np.
-    - intros [cf ck]. np_bind. apply scrypt_decrypt_np. }
+  { unfold decode_scrypt in Hc.
+    destruct (unmarshal_wallet P (step_crypto_with step_scrypt_params) (zero_cc, zero_sp) t) as [[cf [cc sp]]|e|] eqn:E;
+      cbn [bind]; [|discriminate|].
+    - np_bind. apply scrypt_decrypt_np. exact Hc.
+    - exfalso. revert E. apply unmarshal_wallet_np. intros. apply step_crypto_with_np. apply step_scrypt_params_np. }
   destruct t; try exact H. contradiction.
 Qed.
 
@@ -242,9 +275,10 @@ Lemma null_has_no_id P {C} (sc : C -> bytes -> json -> res C) zero cf c :
   unmarshal_wallet P sc zero JNull = Ok (cf, c) -> cf_id cf = None.
 Proof. unfold unmarshal_wallet. simpl. intros H; injection H as <- _. reflexivity. Qed.
 
-Theorem read_wallet_tree_total P t pw : read_wallet_tree P t pw <> Panic.
+Theorem read_wallet_tree_total P t pw : cost_capped P t = true -> read_wallet_tree P t pw <> Panic.
 Proof.
-  unfold read_wallet_tree.
+  intros Hc. unfold read_wallet_tree.
+  unfold cost_capped, decode_content, decode_common in Hc.
   destruct (unmarshal_wallet P step_crypto_only zero_cc t) as [[cf cc]|e|] eqn:E; simpl; try discriminate.
   2:{ exfalso. revert E. apply unmarshal_wallet_np. apply step_crypto_only_np. }
   pose proof (unmarshal_metadata_np P t) as Hm.
@@ -253,21 +287,35 @@ Proof.
   assert (Ht : t <> JNull).
   { intros ->. apply null_has_no_id in E. congruence. }
   destruct (cf_version cf =? version3)%Z; simpl; [|discriminate].
-  destruct (bytes_eqb (cc_kdf cc) kdfTypeScrypt); [apply readScrypt_np; exact Ht|].
+  destruct (bytes_eqb (cc_kdf cc) kdfTypeScrypt).
+  { apply readScrypt_np; [exact Ht|]. destruct (decode_scrypt P t) as [[? [? ?]]| |]; auto. }
   destruct (bytes_eqb (cc_kdf cc) kdfTypePbkdf2); [apply readPbkdf2_np; exact Ht|].
   discriminate.
 Qed.
 
-Theorem ReadWalletFile_total P bytes pw : ReadWalletFile P bytes pw <> Panic.
+Theorem ReadWalletFile_total P bytes pw : cost_capped_bytes P bytes = true -> ReadWalletFile P bytes pw <> Panic.
 Proof.
-  unfold ReadWalletFile. destruct (json_parse P bytes); [apply read_wallet_tree_total | discriminate].
+  unfold ReadWalletFile, cost_capped_bytes.
+  destruct (json_parse P bytes); [apply read_wallet_tree_total | discriminate].
+Qed.
+
+(* the converse reading: a panic of the read path means the document is beyond the cap -- it decodes as a
+   scrypt file whose n and r ask for a work area of more than 2^48 bytes *)
+Corollary read_panic_beyond_cap P t pw :
+  read_wallet_tree P t pw = Panic ->
+  exists cf cc sp, decode_content P t = Some (cf, cc, KScrypt sp) /\ scrypt_alloc_ok (sp_n sp) (sp_r sp) = false.
+Proof.
+  intros H. destruct (cost_capped P t) eqn:Hc.
+  - exfalso. revert H. apply read_wallet_tree_total. exact Hc.
+  - unfold cost_capped in Hc. destruct (decode_content P t) as [[[cf cc] [sp|pp]]|]; try discriminate.
+    exists cf, cc, sp. split; [reflexivity|exact Hc].
 Qed.
 
 (* every library call site of the read path is entered inside the library's precondition: the
    functions that contain the call sites cannot return [Panic], and the guards that precede each call
    imply its precondition *)
 Theorem calls_in_domain P :
-  (forall c kp pw, scrypt_decrypt P c kp pw <> Panic) /\
+  (forall c kp pw, scrypt_alloc_ok (sp_n kp) (sp_r kp) = true -> scrypt_decrypt P c kp pw <> Panic) /\
   (forall c kp pw, pbkdf2_decrypt P c kp pw <> Panic) /\
   (forall c dk, decryptCommon P c dk <> Panic) /\
   (forall key iv ct, aes128CtrDecrypt P key iv ct <> Panic) /\
@@ -277,7 +325,7 @@ Theorem calls_in_domain P :
       pbkdf2_pre (pp_c kp) (pp_dklen kp) = true).
 Proof.
   repeat split.
-  - intros; apply scrypt_decrypt_np.
+  - intros; apply scrypt_decrypt_np; assumption.
   - intros; apply pbkdf2_decrypt_np.
   - intros; apply decryptCommon_np.
   - intros; apply aes128CtrDecrypt_np.
